@@ -22,7 +22,7 @@ SPEC_FUNCS = {
     "log_pos", "yielded", "exists_event", "all_events", "isinstance_",
     "truthy", "mem", "count_held", "seq", "select", "glob0", "obj", "strip",
     "split", "join", "cfg", "reaches", "no_event_between", "log_len", "the",
-    "split_ws", "as_", "tail", "has_loop", "ordered", "count_events", "pre", "app_call", "dynattr",
+    "split_ws", "as_", "tail", "has_loop", "ordered", "count_events", "pre", "app_call", "dynattr", "seq1", "prefix_of", "unbox",
 }
 
 
@@ -348,6 +348,23 @@ class SpecMixin:
             return VBool(self.contains(c, x, st))
         if name == "select":
             return wrap_term(z3.Select(term_of(val(a[0])), term_of(val(a[1]))))
+        if name == "seq":
+            v = val(a[0])
+            if isinstance(v, VRef) and isinstance(v.T, ty.Lst):
+                return VSeq(st.lst_get(v), v.T.elem)
+            if isinstance(v, VSeq):
+                return v
+            raise EngineError(f"seq() of {v!r}")
+        if name == "unbox":
+            from .engine import _unbox_int
+            return VInt(_unbox_int(term_of(val(a[0]))))
+        if name == "prefix_of":
+            x, y = val(a[0]), val(a[1])
+            return VBool(z3.PrefixOf(x.t, y.t))
+        if name == "seq1":
+            v = val(a[0])
+            T_ = self.type_of_value(v)
+            return VSeq(z3.Unit(flatten(v, T_)[0]), T_)
         if name == "yielded":
             if st.gen_out is None:
                 raise EngineError("yielded() outside a generator")
